@@ -288,7 +288,7 @@ PROPS = {
     "C16": dict(
         level="other",
         bounded=_both(_mod("c16"), _mod("extra", "run_c16x")),
-        lemmas=["RangeList", "mem.snoc.Str", "mem.nil.Str"],
+        lemmas=["RangeList", "mem.snoc.Str", "mem.nil.Str", "LitsOK.step", "WofN.map"],
         trusted=TB,
         assumed=["symbolize_bitvec (string manipulation) denotes the world", LSTOP],
         explanation="Engine P proves SystemZPreOCF._rec_z_rank, z_part2ocf and rank_world with the cache invariant (lazy / forced / "
@@ -309,11 +309,11 @@ PROPS = {
         bounded=_mod("c18"),
         trusted=TB,
         assumed=[
-            "symbolize_bitvec denotes the world",
+            "worlds handed to a ranking are well-formed bitstrings of its signature, and Wof(b) abbreviates WofN(b, signature) (the computation of symbolize_bitvec is proved: contract symbolize_bitvec#impl, lemma WofN.map)",
             "PJ: the bit deletion in marginalize (a string comprehension) is a function of world, signature and marginalization (which bits it deletes: bounded, module c18)",
             "abstract rank_world of the base class returns RKf(world), or raises (compute_conditionalization); the custom ranking's rank_world is proved to return the stored rank",
         ],
-        lemmas=["SeenRank.step", "MargAtt.step", "MargLB.step", "MargAny.step"],
+        lemmas=["SeenRank.step", "MargAtt.step", "MargLB.step", "MargAny.step", "LitsOK.step", "WofN.map"],
         explanation="Engine P proves formula_rank (least rank of the models, None if none), conditional_acceptance, is_ocf, "
         "world_satisfies_conditionalization, the conditionalisations (filter_worlds_by_conditionalization, compute_conditionalization, "
         "conditionalize_existing_ranks: exactly the worlds satisfying the formula, with their ranks), both directions of the TPO "
